@@ -466,104 +466,18 @@ fn run_c15(cli: &Cli) -> (Value, Vec<Violation>) {
     (cov, viol)
 }
 
-// ------------------------------------------------------------------------------------------------
-// C09 (key part): slot of every key vs bit-wise CRC16-XMODEM + hash-tag rule of the spec
-
-fn crc16_xmodem_ref(data: &[u8]) -> u16 {
-    let mut crc: u16 = 0;
-    for b in data {
-        crc ^= (*b as u16) << 8;
-        for _ in 0..8 {
-            if crc & 0x8000 != 0 {
-                crc = (crc << 1) ^ 0x1021;
-            } else {
-                crc <<= 1;
-            }
-        }
-    }
-    crc
-}
-
-pub fn ref_slot(key: &[u8]) -> usize {
-    // Redis Cluster specification: hash only what is between the first '{' and the first '}'
-    // after it, if that is non-empty.
-    let mut tag = key;
-    if let Some(s) = key.iter().position(|c| *c == b'{') {
-        if let Some(e) = key[s + 1..].iter().position(|c| *c == b'}') {
-            if e > 0 {
-                tag = &key[s + 1..s + 1 + e];
-            }
-        }
-    }
-    (crc16_xmodem_ref(tag) as usize) % 16384
-}
-
-fn run_c09_keys(cli: &Cli) -> (Value, Vec<Violation>) {
-    let alpha: &[u8] = &[b'{', b'}', b'a', b'b', 0x00, 0xFF];
-    let maxlen = if cli.thorough() { 7 } else { 6 };
-    let mut n = 0usize;
-    let mut viol = vec![];
-    let mut slots_seen = std::collections::HashSet::new();
-    let mut s: Vec<u8> = vec![];
-    fn rec(s: &mut Vec<u8>, alpha: &[u8], maxlen: usize, f: &mut dyn FnMut(&[u8])) {
-        f(s);
-        if s.len() == maxlen {
-            return;
-        }
-        for a in alpha {
-            s.push(*a);
-            rec(s, alpha, maxlen, f);
-            s.pop();
-        }
-    }
-    rec(&mut s, alpha, maxlen, &mut |k: &[u8]| {
-        n += 1;
-        let got = undermoon::common::utils::generate_slot(k);
-        let want = ref_slot(k);
-        slots_seen.insert(want);
-        if got != want && viol.len() < 5 {
-            viol.push(Violation { key: "key-slot-differs".into(), desc: format!("key {:?}: slot {} but specification says {}", k, got, want), replay: json!({"key": k}) });
-        }
-        // same_slot agrees with the reference for (k, k+"x") and (k, "{"+tag+"}z")
-        let mut k2 = k.to_vec();
-        k2.push(b'x');
-        let same = undermoon::common::utils::same_slot(vec![k, &k2[..]].into_iter());
-        if same != (ref_slot(k) == ref_slot(&k2)) && viol.len() < 5 {
-            viol.push(Violation { key: "same-slot-differs".into(), desc: format!("same_slot({:?},{:?}) = {}", k, k2, same), replay: json!({"key": k}) });
-        }
-    });
-    // long keys / well-known vectors
-    let known: Vec<(&[u8], usize)> = vec![(b"123456789", 12739), (b"foo", 12182), (b"{user1000}.following", 3443), (b"{user1000}.followers", 3443), (b"foo{}{bar}", 8363), (b"foo{{bar}}zap", 4015), (b"foo{bar}{zap}", 5061)];
-    for (k, want) in &known {
-        n += 1;
-        if ref_slot(k) != *want {
-            vh::report::machinery_error(&format!("reference slot function fails the published vector {:?}", k));
-        }
-        if undermoon::common::utils::generate_slot(k) != *want {
-            viol.push(Violation { key: "key-slot-differs".into(), desc: format!("published vector {:?}", k), replay: json!({"key": k}) });
-        }
-    }
-    let cov = json!({
-        "evaluations": n,
-        "distinct_nontrivial": n,
-        "distinct_slots_hit": slots_seen.len(),
-        "rule": format!("all byte strings of length <= {} over {{'{{','}}','a','b',0x00,0xFF}} (every brace placement) + published CRC16/hash-tag vectors; each compared with a bit-wise CRC16-XMODEM and the hash-tag rule written from the Redis Cluster specification", maxlen),
-        "samples": [{"key": "foo{}{bar}", "slot": ref_slot(b"foo{}{bar}")}, {"key": "{a}b}", "slot": ref_slot(b"{a}b}")}],
-        "exhaustive": true,
-    });
-    (cov, viol)
-}
-
 fn main() {
     let cli = Cli::parse();
     std::panic::set_hook(Box::new(|_| {}));
+    let t0 = std::time::Instant::now();
     let (level, (cov, viol)) = match cli.prop.as_str() {
         "C15" => ("model_checking", run_c15(&cli)),
-        "C09" => ("model_checking", run_c09_keys(&cli)),
+        "C09" => ("model_checking", vh::c09keys::run_c09_keys(&cli)),
         "C17" => ("model_checking", c17::run(&cli)),
         _ => machinery_error("enummc serves C15 C09 C17"),
     };
     let mut rep = Report::new(&cli, level);
+    rep.start = t0;
     rep.assumptions = vec!["reference models (strict RESP framer, bit-wise CRC16 + hash-tag rule, token-level re-encoding) are written in the harness from the specifications".into()];
     std::process::exit(rep.finish(cov, viol));
 }
